@@ -1,14 +1,19 @@
 SPECIFICATION Spec
 CONSTANTS
-  Interval = 8
+  Interval = 16
   MaxLen = 6
   Thresholds <- ThoroughThresholds
-  AnswerDelays = {0, 2}
+  AnswerDelays = {0, 4}
   DrainLens = {1, 2}
   HsSlots <- GenHsSlots
   CtxSlots <- GenCtxSlots
   EnvMaxLen = 4
   EnvProduct = TRUE
-INVARIANTS TypeOK InvAccuracy InvTiming InvSilentStop InvCounter InvCompleteness InvFinal InvGoneAtClose InvNoTickAfterUser InvGoneWhenClosing
+  StallKinds <- AllStalls
+  MaxStalls = 2
+  StallMaxLen = 4
+  EstModes <- AllEst
+  EstMaxLen = 3
+INVARIANTS TypeOK InvAccuracy InvTiming InvSilentStop InvCounter InvCompleteness InvFinal InvGoneAtClose InvNoTickAfterUser InvGoneWhenClosing InvGrid
 PROPERTIES NoPingAfterStop Terminates
 CHECK_DEADLOCK FALSE
